@@ -503,7 +503,7 @@ func nameOrigins(u *Universe, v ssa.Value) []string {
 			}
 		case *ssa.Field:
 			if st, ok := x.X.Type().Underlying().(*types.Struct); ok {
-				origins[recvNamed(x.X.Type())+"."+st.Field(x.Field).Name()] = true
+				origins[recvNamed(x.X.Type())+"."+fieldName(st.Field(x.Field))] = true
 			}
 		case *ssa.Index:
 			walk(x.X, depth)
